@@ -1,5 +1,5 @@
 """Checks of the comparison family: C01 C02 C05 C06 C17."""
-import copy, json, os, random, itertools
+import copy, json, os, random, itertools, re
 import dxlib as dx
 import cmpfam as cf
 
@@ -95,13 +95,13 @@ def c05(tier):
                             src = cf.item_src(P, D, "T", "distinct", entry)
                             item = src[src.index("]") + 1:] if entry == "attr" else src
                             reqs.append({"k": "expand", "id": len(reqs), "entry": entry,
-                                         "attr": ", ".join(D) if entry == "attr" else "", "item": item})
+                                         "attr": cf.attr_args(P, D) if entry == "attr" else "", "item": item})
                             meta.append((P, D, entry, "misplaced_%s_%s" % (target, kind), P["variants"][-1]["fields"][0]["cmp"]))
     for (P, D, entry, tag, c) in random_items(random.Random(dx.seed() + 3), 20000 if tier == "quick" else 200000):
         for ent in ("attr", "derive"):
             src = cf.item_src(P, D, "T", "distinct", ent)
             item = src[src.index("]") + 1:] if ent == "attr" else src
-            reqs.append({"k": "expand", "id": len(reqs), "entry": ent, "attr": ", ".join(D) if ent == "attr" else "", "item": item})
+            reqs.append({"k": "expand", "id": len(reqs), "entry": ent, "attr": cf.attr_args(P, D) if ent == "attr" else "", "item": item})
             meta.append((P, D, ent, "random", c))
     # the same decisions with explicit bound(...) arguments written next to everything else (they stop / continue bound
     # resolution and must not change what is accepted): per-trait, shared, and inside the helper attributes (first / last / `..`)
@@ -125,7 +125,7 @@ def c05(tier):
                 (P, D, entry, tag, c) = meta[j]
                 if tag.startswith("misplaced") or (tag == "random" and j % 5 == gi):
                     src = cf.item_src(P, D, "T", "distinct", entry)
-                    reqs.append({"k": "expand", "id": len(reqs), "entry": entry, "attr": cf.dlist(D) if entry == "attr" else "",
+                    reqs.append({"k": "expand", "id": len(reqs), "entry": entry, "attr": cf.attr_args(P, D) if entry == "attr" else "",
                                  "item": src[src.index("]") + 1:] if entry == "attr" else src})
                     meta.append((P, D, entry, tag + "+" + guise, c))
     finally:
@@ -135,7 +135,13 @@ def c05(tier):
     events = []
     for r, (P, D, entry, tag, c) in zip(resps, meta):
         cl, info = cf.classes_of(r, D, entry)
-        events.append({"ev": "expand", "P": P, "D": D, "entry": entry, "classes": cl, "whole": info["whole"]})
+        e = {"ev": "expand", "P": P, "D": D, "entry": entry, "classes": cl, "whole": info["whole"]}
+        if entry == "attr" and r.get("items") and r["items"][0].get("attr_pos") is not None:
+            # accepted use must also COMPILE: a helper attribute that belongs to derive_ex for this derived set must be gone
+            # from the re-emitted item (a leftover `#[eq(..)]` is an unknown attribute to rustc)
+            names = [re.match(r"#\s*\[\s*([A-Za-z_][A-Za-z0-9_]*)", a).group(1) for pos in r["items"][0]["attr_pos"] for a in pos if re.match(r"#\s*\[\s*([A-Za-z_][A-Za-z0-9_]*)", a)]
+            e["leftover"] = sorted(set(nm for nm in names if nm in cf.ATTRS and any(RELEVANT(nm, t) for t in D)))
+        events.append(e)
     n, bad, jst = dx.tlc_judge("Trace_Cmp", "Trace_Cmp.cfg", events, "c05", chunk=max(2000, -(-len(events) // 12)))
     ck.add_judge(n, jst)
     for i in bad:
@@ -234,7 +240,7 @@ def observe_runtime(ck, items, mode, laws, tag, transform=None):
     reqs = []
     for (P, D, entry, stag, c) in items:
         src = cf.item_src(P, D, "T", mode, "attr")
-        reqs.append({"k": "expand", "id": len(reqs), "entry": "attr", "attr": ", ".join(D), "item": src[src.index("]") + 1:]})
+        reqs.append({"k": "expand", "id": len(reqs), "entry": "attr", "attr": cf.attr_args(P, D), "item": src[src.index("]") + 1:]})
     resps = dx.expand(reqs)
     classes = {}
     n_rejected = 0
@@ -495,7 +501,7 @@ def c17(tier):
     reqs = []
     for (P, D, entry, stag, c) in items:
         src = cf.item_src(P, D, "T", "distinct", "attr")
-        reqs.append({"k": "expand", "id": len(reqs), "entry": "attr", "attr": ", ".join(D), "item": src[src.index("]") + 1:]})
+        reqs.append({"k": "expand", "id": len(reqs), "entry": "attr", "attr": cf.attr_args(P, D), "item": src[src.index("]") + 1:]})
     resps = dx.expand(reqs)
     classes = {}
     for i, (r, it) in enumerate(zip(resps, items)):
@@ -593,6 +599,18 @@ def c17_generic(tier):
                 a = form % b
                 cases.append(("%s_%s_%s" % (lvl_tag, btag, form.split("(")[0].strip("#[")), ok,
                               hdr + "#[::derive_ex::derive_ex(Eq, PartialEq)] %s\n" % wrap(a)))
+    # field types that refer back to the item, and field types that mention a lifetime parameter only: every component still counts
+    for tag, ok, item in (("recursive_with_float", False, "pub struct X { pub children: ::std::vec::Vec<(X, f64)>, pub n: u8 }"),
+                          ("recursive_self_with_float", False, "pub enum X { Leaf(u8), Node(::std::boxed::Box<Self>, ::std::vec::Vec<(Self, f32)>) }"),
+                          ("recursive_plain", True, "pub struct X { pub children: ::std::vec::Vec<X>, pub n: u8 }"),
+                          ("recursive_self_plain", True, "pub enum X { Leaf(u8), Node(::std::boxed::Box<Self>, ::core::option::Option<::std::boxed::Box<X>>) }"),
+                          ("lifetime_ref_float", False, "pub struct X<'a>(pub &'a f64, pub u8);"),
+                          ("lifetime_slice_float", False, "pub struct X<'a> { pub a: &'a [f32] }"),
+                          ("lifetime_cow_float", False, "pub struct X<'a> { pub a: ::std::borrow::Cow<'a, [f64]> }"),
+                          ("lifetime_tuple_float", False, "pub enum X<'a> { A((&'a str, f64)), B }"),
+                          ("lifetime_ref_int", True, "pub struct X<'a>(pub &'a u8, pub &'a str);"),
+                          ("lifetime_and_type_param_float", False, "pub struct X<'a, T>(pub &'a T, pub &'a f64);")):
+        cases.append((tag, ok, hdr + "#[::derive_ex::derive_ex(Eq, PartialEq)] %s\n" % item))
     # ignored / by-compared generic fields need nothing
     cases.append(("ignored_generic", True, hdr + "#[::derive_ex::derive_ex(Eq, PartialEq)] pub struct X<T>(#[eq(ignore, bound())] pub T, pub u8);\n"))
     cases.append(("by_generic", True, hdr + "#[::derive_ex::derive_ex(Eq, PartialEq)] pub struct X<T>(#[eq(by = |_: &T, _: &T| true, bound())] pub T, pub u8);\n"))
